@@ -1,11 +1,16 @@
 import Driver.Util
 import Driver.Backoff
+import Driver.Wire
 
 /-! `drv`: one case per input line, one result per output line (see /verif/DESIGN.md, section 3.2). -/
 
 def step (line : String) : String :=
   match Driver.words line with
   | "bo" :: rest => Driver.Backoff.run rest
+  | "wenc" :: rest => Driver.Wire.run "wenc" rest
+  | "wdec" :: rest => Driver.Wire.run "wdec" rest
+  | "benc" :: rest => Driver.Wire.run "benc" rest
+  | "bdec" :: rest => Driver.Wire.run "bdec" rest
   | _ => "bad-op"
 
 partial def loop (h : IO.FS.Stream) (out : IO.FS.Stream) : IO Unit := do
